@@ -9,6 +9,8 @@ git apply "$patch" || { echo "patch does not apply"; exit 2; }
 export GOFLAGS=-mod=mod GOPROXY=off GOSUMDB=off
 go build ./... && go test -vet=off -count=1 ./util/... >/dev/null 2>&1 && echo "seed $id: builds, baseline passes" || echo "seed $id: BUILD/BASELINE FAILS"
 cd /verif
+export VERIF_EVIDENCE_DIR=/tmp/seedtest-evidence VERIF_REPLAY_DIR=/tmp/seedtest-replays
+mkdir -p $VERIF_EVIDENCE_DIR $VERIF_REPLAY_DIR
 for p in "$@"; do
   out=$(VERIF_BUDGET=${BUDGET:-60} ./check $p --tier quick 2>&1 | grep -v "^    ")
   echo "$out" | grep "^check\|^  C\|KNOWN\|UNREP" | head -6 | cut -c1-400
